@@ -2,7 +2,7 @@
  * are reachable) with read()/poll()/write() redirected to the case data.
  *
  *   W <s0> <part>...        net_writen({s0, part..., NULL})  ->  OK <line>...   (one field per netnwrite call)
- *   R <stream> <cuts>       reader: net_read(0) until the stream is dead; <cuts> = bytes, each the size of one read() result
+ *   R <stream> <cuts>...    reader: net_read(1) until the stream is dead, once per <cuts> field; <cuts> = bytes, each the size of one arriving segment
  *                           ->  items  L<hex> | EINVAL | E2BIG ... DEAD
  */
 #include "hcommon.h"
@@ -50,15 +50,21 @@ static int h_poll(struct pollfd *p, nfds_t n, int t)
 	p->revents = POLLIN;
 	return 1;
 }
+static size_t r_segleft;	/* unread bytes of the current segment */
 static ssize_t h_read(int fd, void *buf, size_t n)
 {
 	(void)fd;
-	size_t k = (r_cut < r_ncuts) ? r_cuts[r_cut++] : 1;
-	if (k == 0) k = 1;
+	if (r_segleft == 0) {
+		/* next segment arrives: its size is the next cut (0 counts as 1); after the last cut the rest is one segment */
+		if (r_cut < r_ncuts) { r_segleft = r_cuts[r_cut++]; if (r_segleft == 0) r_segleft = 1; }
+		else r_segleft = r_len - r_pos;
+		if (r_segleft > r_len - r_pos) r_segleft = r_len - r_pos;
+	}
+	size_t k = r_segleft;
 	if (k > n) k = n;
-	if (k > r_len - r_pos) k = r_len - r_pos;
 	memcpy(buf, r_stream + r_pos, k);
 	r_pos += k;
+	r_segleft -= k;
 	return k;	/* 0 at end of stream: net_read() treats that as a closed connection */
 }
 
@@ -84,7 +90,7 @@ static void run_case(int nf, struct field *f)
 	} else if (f[0].len == 1 && f[0].p[0] == 0xbb) {	/* R: one reader run per schedule field */
 		for (int sc = 2; sc < (nf > 2 ? nf : 3); sc++) {
 			r_stream = f[1].p; r_len = f[1].len; r_pos = 0;
-			r_cuts = nf > 2 ? f[sc].p : NULL; r_ncuts = nf > 2 ? f[sc].len : 0; r_cut = 0;
+			r_cuts = nf > 2 ? f[sc].p : NULL; r_ncuts = nf > 2 ? f[sc].len : 0; r_cut = 0; r_segleft = 0;
 			linenlen = 0; linein.len = 0;
 			timeout = 1;
 			if (sc > 2) out_str(" ||");
